@@ -308,6 +308,25 @@ fn check(id: &str, tier: Tier, seed: u64, args: &[String]) -> i32 {
             }
         }
     }
+    // part D of C20: bin/check runs sim-miri (std threads under Miri's seeded scheduler) and hands over the outcome
+    if id == "C20" {
+        let runs: u64 = std::env::var("VERIF_MIRI_RUNS").ok().and_then(|s| s.parse().ok()).unwrap_or(0);
+        *probes.entry("miri_interpreter_runs_clean".into()).or_insert(0) += runs;
+        evaluations += runs;
+        if let Ok(p) = std::env::var("VERIF_MIRI_FAIL") {
+            if !p.is_empty() {
+                let first = std::fs::read_to_string(&p).ok().and_then(|t| t.lines().find(|l| l.contains("MIRI-MISMATCH") || l.contains("Undefined Behavior") || l.contains("deadlock")).map(|l| l.to_string())).unwrap_or_default();
+                println!("  violation class=C20/miri\n    detail: clones on real threads under Miri: {first}");
+                violations.push(("C20/miri".into(), p));
+            }
+        }
+        if let Ok(why) = std::env::var("VERIF_MIRI_SKIPPED") {
+            if !why.is_empty() {
+                println!("  note: Miri part skipped ({why})");
+                *skips.entry("tool_missing:miri".into()).or_insert(0) += 1;
+            }
+        }
+    }
     let wall = t0.elapsed().as_secs_f64();
     let zero_probes: Vec<&String> = probes.iter().filter(|(_, v)| **v == 0).map(|(k, _)| k).collect();
     let ev = json!({
